@@ -60,3 +60,98 @@ def self_check(ctx):
     if ws != (1, 2, 0):
         ctx.note("live cwcwidth gives widths %r for the alphabet (narrow, wide, combining); expected (1, 2, 0)" % (ws,))
     return ws
+
+
+# ------------------------------------------------------------------------------------------------
+# FmtStr values built through the REAL operations, so that the same Chunk OBJECT can sit at several
+# positions of .chunks (f * n, f + f, join, whole-run slices) - the value model cannot tell, the code might.
+# A case carries the resulting chunk list in wire form (`f`) plus a replayable recipe (`build` / `pool`).
+# ------------------------------------------------------------------------------------------------
+import random as _random
+import wire as _wire
+
+
+def realize_build(spec):
+    kind = spec[0]
+    base = _wire.mk_fmt(spec[1])
+    if kind == "mul":
+        return base * spec[2]
+    if kind == "addself":
+        return base + base
+    if kind == "addself3":
+        return base + base + base
+    if kind == "join_sep":          # separator repeated: sep.join([g, FmtStr(), FmtStr(), g])
+        g = _wire.mk_fmt(spec[2])
+        return base.join([g, F.FmtStr(), F.FmtStr(), g])
+    if kind == "join_item":         # the same item object repeated with an empty separator
+        return F.FmtStr().join([base, base, base])
+    if kind == "slicecat":          # whole-run slices hand back the very Chunk objects
+        n = len(base)
+        return base[0:n] + base[0:n]
+    if kind == "slicemul":
+        n = len(base)
+        return base[0:n] * 2 + base
+    raise KeyError(kind)
+
+
+def shared_variants(chunks, other=None):
+    """recipes sharing Chunk objects by identity, for a base chunk list"""
+    out = [("mul", chunks, 2), ("mul", chunks, 3), ("addself", chunks), ("addself3", chunks),
+           ("join_item", chunks), ("slicecat", chunks), ("slicemul", chunks)]
+    out.append(("join_sep", chunks, other if other is not None else []))
+    return out
+
+
+_pools = {}
+
+
+def pool_object(seed, index, steps=14):
+    from props.common import api_pool
+    if seed not in _pools:
+        _pools[seed] = api_pool(_random.Random(seed), steps)[0]
+    return _pools[seed][index]
+
+
+def pool_size(seed, steps=14):
+    pool_object(seed, 0, steps)
+    return len(_pools[seed])
+
+
+def realize(c):
+    """the real FmtStr of a case"""
+    if "build" in c:
+        return realize_build(c["build"])
+    if "pool" in c:
+        return pool_object(c["pool"][0], c["pool"][1])
+    return _wire.mk_fmt(c["f"])
+
+
+def shared_case_fields(spec):
+    """-> dict(f=<wire chunk list of the built object>, build=spec)"""
+    return dict(f=_wire.fmt_chunks(realize_build(spec)), build=list(spec))
+
+
+def has_shared_chunks(obj):
+    ids = [id(ch) for ch in obj.chunks]
+    return len(set(ids)) < len(ids)
+
+
+def safe_oracle(fn):
+    """an exception raised while OBSERVING a result (len, .s, .width, cells, encoding) is a violation, never a crash"""
+    def wrapped(c):
+        try:
+            return fn(c)
+        except Exception as e:  # noqa: BLE001
+            return "exception while observing the result: %s: %s" % (type(e).__name__, e)
+    wrapped.__doc__ = fn.__doc__
+    return wrapped
+
+
+def safe_impl(fn):
+    """the implementation side of a tie never crashes the run: anything unexpected becomes a reply no model reply equals"""
+    def wrapped(c):
+        try:
+            return fn(c)
+        except Exception as e:  # noqa: BLE001
+            return "observe-failed:%s" % type(e).__name__
+    return wrapped
